@@ -247,6 +247,36 @@ def run_check(ctx):
     run.run_sharded(ctx, corpus_part, [()], procs=1)
     run.run_sharded(ctx, hyp_part, [(n // 16, run.sub_seed(ctx.seed, "c19", i)) for i in range(16)])
     run.run_sharded(ctx, load_part, [(run.sub_seed(ctx.seed, "c19l", i), 12 if ctx.tier == "quick" else 60) for i in range(4)])
+    fuzz_part(ctx, 20000 if ctx.tier == "quick" else 1000000)
+
+
+def fuzz_part(ctx, runs):
+    """coverage-guided byte-level target (atheris) for the three string helpers; failures become violations"""
+    import json as _json
+    d = tempfile.mkdtemp(prefix="c19fz_")
+    try:
+        out = os.path.join(d, "out.json")
+        corp = os.path.join(d, "corpus")
+        os.makedirs(corp)
+        env = dict(os.environ, VERIF_REPO_DIR=boot.REPO_DIR,
+                   PYTHONPATH=os.path.join(boot.VERIF_DIR, ".deps") + os.pathsep + boot.VERIF_DIR)
+        subprocess.run(["/venv/bin/python", "-m", "vlib.fuzz_helpers", out, f"-runs={runs}", f"-seed={ctx.seed or 1}",
+                        "-max_len=64", corp], env=env, cwd=boot.VERIF_DIR, stdout=subprocess.DEVNULL,
+                       stderr=subprocess.DEVNULL, timeout=3600)
+        try:
+            res = _json.load(open(out))
+        except Exception:
+            res = {"available": False}
+    finally:
+        shutil.rmtree(d, ignore_errors=True)
+    if not res.get("available"):
+        ctx.count("atheris not available: byte-level target skipped (Hypothesis versions of the same oracles ran)")
+        return
+    ctx.evaluations += res["execs"]
+    ctx.count("atheris executions", res["execs"])
+    ctx.count("atheris non-trivial inputs", res["nontrivial"])
+    for f in res["failures"]:
+        ctx.failure("C19 fuzz: " + f["kind"], f["detail"])
 
 
 def replay(rep):
